@@ -43,8 +43,8 @@ type c09Run struct {
 }
 
 type c09Sub struct {
-	Scenario string `json:"scenario"`
-	Run      c09Run `json:"run"`
+	Scenario string  `json:"scenario"`
+	Run      c09Run  `json:"run"`
 	Case     c09Case `json:"case"`
 }
 
